@@ -65,8 +65,13 @@ def explore(run, binp, cases, with_spec=True, types=("seqagg", "sequrl")):
 def gen_cases(rng, n, hist_frac=0.5, maxlen=6, utf8_only=True):
     out = []
     while len(out) < n:
-        inp, base = genlib.gen_pair(rng)
-        ops = genlib.gen_history(rng, maxlen) if rng.random() < hist_frac else []
+        if rng.random() < 0.15:
+            inp, base, ops = genlib.gen_scenario(rng)
+            if hist_frac == 0.0:
+                ops = []
+        else:
+            inp, base = genlib.gen_pair(rng)
+            ops = genlib.gen_history(rng, maxlen) if rng.random() < hist_frac else []
         if utf8_only:
             if not genlib.is_utf8(inp) or (base is not None and not genlib.is_utf8(base)):
                 continue
